@@ -18,6 +18,7 @@ def run(ctx):
     obs += cp.calc_rule(ctx, 'C08')
     obs += cp.txn_rule(ctx, 'C08')
     obs += cp.sep_rule(ctx, 'C08')
+    obs += cp.separator_condition_rule(ctx, 'C08')
     obs += cp.capture_offsets_rule(ctx, 'C08')
     obs += cp.int_rule(ctx, 'C08', writer_only=True)
     obs += cp.step_rules(ctx, 'C08')
